@@ -1,15 +1,15 @@
 """C14 — faked async functions complete at once with the value; others are untouched."""
 import core
 
-RULE = ("case = a seeded history of 1-3 injector lifetimes x 4-23 operations over a family of 10 async functions (free functions and a "
-        "method; by-value and by-reference parameters; outputs (), u32 x3 siblings, bool, String, [u64;32], Result<Vec<u8>,String>; one "
+RULE = ("case = a seeded history of 1-3 injector lifetimes x 4-23 operations over a family of 15 async functions (free functions and a "
+        "method; by-value and by-reference parameters; outputs (), u32 x3 siblings, bool, u8, f64, String, [u64;32], Result<Vec<u8>,String>, Option<Box<u64>> (niche layout, None and Some), (u64,String), a 96-byte struct owning a Vec whose constructions and drops are counted; one "
         "function that yields once so the original needs two polls): fake (fresh-value / constant / unchecked variants), re-fake, await "
         "directly, await from inside a parent async block, await on 4 executor threads while the injector lives on the main thread, drop, "
         "new lifetime. A hand-written executor polls once per step and records Pending/Ready; every original body bumps a counter; "
         "value expressions draw from a counter. Oracle (reference model fn -> current source): a faked await is Ready on its first poll, "
         "the body counter does not move, the value is a fresh evaluation (never seen before / increasing) or the constant; an un-faked "
         "function, incl. same-output siblings awaited right after, gives its original value in its original number of polls with the body "
-        "run once; after the drop all ten are original. distinct = (set of faked functions, re-fakes capped at 3, lifetimes)")
+        "run once; after the drop all fifteen are original; the counted struct is never dropped more often than made and never torn. distinct = (set of faked functions, re-fakes capped at 3, lifetimes)")
 
 
 def run(tier, seed):
